@@ -7,7 +7,7 @@
    removeValueForFailedLoad's marking step repaired (Swap + decrement); the code as found (plain Store)
    violates the statement, see C16_Refuted.v. *)
 From SG Require Import Base.Prelude C16.RevCache C16.RevCacheLemmas C16.RevCacheProofs C16.RevCacheContent
-  C16.RevCacheRuns C16.RevCacheConc C16.RevCacheConcProofs.
+  C16.RevCacheRuns C16.RevCacheSharded C16.RevCacheConc C16.RevCacheConcProofs C16.RevCacheConcRest.
 Open Scope Z_scope.
 
 (* the number of cached items never exceeds the configured capacity *)
@@ -107,6 +107,16 @@ Theorem C16_stale_dropped_after_feed : forall cfg l a ops k,
 Proof. exact stale_dropped_after_feed. Qed.
 Print Assumptions C16_stale_dropped_after_feed.
 
+(* many shards (ShardedLRURevisionCache): the shared gauges are exact totals over the shards, and every
+   shard respects its own capacity, for every history of routed calls *)
+Theorem C16_sharded_gauges_exact : forall cfgs l a ops,
+  let sts := run_sh cfgs (init_sh cfgs l a) ops in
+  sumZ (map items sts) = Z.of_nat (length (concat (map lru sts))) /\
+  Forall2 (fun cfg s => (length (lru s) <= N.to_nat (cap cfg))%nat) cfgs sts /\
+  (puts_ok_sh cfgs (init_sh cfgs l a) ops -> sumZ (map bytes sts) = sum_sized (concat (map lru sts))).
+Proof. exact sharded_gauges_exact. Qed.
+Print Assumptions C16_sharded_gauges_exact.
+
 (* ---------- all interleavings of the load / account / remove / evict life cycle ---------- *)
 (* in every reachable state of every schedule the byte gauge is the sizes of the accounted values minus the
    increments still owed by goroutines between their CAS and their increment; the item gauge counts the
@@ -130,6 +140,17 @@ Proof.
   exact (crun_inv ksize acts _ _ (cinit_inv ksize n) R).
 Qed.
 Print Assumptions C16_gauges_exact_at_rest_all_interleavings.
+
+(* ... and every value still in the cache is then loaded-and-accounted (Sized): nothing is left Loading or
+   half-removed by any schedule (either variant of the marking step) *)
+Theorem C16_cached_values_sized_at_rest_all_interleavings : forall (ksize : key -> N) fixed n acts s,
+  crun ksize fixed (cinit n) acts = Some s -> quiescent s ->
+  forall i v, nth_error (heap s) i = Some v -> cin v = true -> cm v = Sized.
+Proof.
+  intros ksize fixed n acts s R Q. apply rest_all_sized; [|exact Q].
+  exact (crun_inv2 ksize fixed acts _ _ (cinit_inv2 n) R).
+Qed.
+Print Assumptions C16_cached_values_sized_at_rest_all_interleavings.
 
 (* non-vacuity: a history with a failed load, a storage change, its Remove, evictions by count and by bytes
    satisfies the hypotheses; a two-goroutine schedule overlapping a load and a Put reaches rest with a
